@@ -2189,6 +2189,22 @@ class SQLModel:
             if subsql_add_query_name
             else None,
         )
+        if is_union:
+            # ORDER BY / LIMIT directly in a UNION member is not legal SQL, isolate such a member in a sub-select
+            def isolate_ordered_member(sub_sql, substr):
+                suffix = getattr(sub_sql.near_sql, "suffix", None)
+                if (suffix is None) or (
+                    not any([str(s).startswith(("ORDER BY", "LIMIT")) for s in suffix])
+                ):
+                    return substr
+                return (
+                    ["SELECT", sql_format_options.sql_indent + "*", "FROM", "("]
+                    + [sql_format_options.sql_indent + si for si in substr]
+                    + [") " + sub_sql.near_sql.quoted_query_name]
+                )
+
+            substr_1 = isolate_ordered_member(near_sql.sub_sql1, substr_1)
+            substr_2 = isolate_ordered_member(near_sql.sub_sql2, substr_2)
         sql = (
             [sql_start]
             + self._indent_and_sep_terms(
